@@ -718,4 +718,29 @@ theorem nameInZone_complete (name zone : Str) (hn : lower name = name) (hzc : lo
       · rw [h1, List.take_left' rfl, ← scanBs_zero]
         exact h3
 
+/-- ASCII lower-casing is idempotent (`dns.CanonicalName` output is canonical). -/
+theorem toLower_idem (c : Char) : c.toLower.toLower = c.toLower := by
+  unfold Char.toLower
+  split
+  · rename_i h
+    split
+    · rename_i h2
+      exfalso
+      simp only [ge_iff_le, UInt32.le_iff_toNat_le] at h h2
+      have e : (c.val + ('a'.val - 'A'.val)).toNat = c.val.toNat + 32 := by
+        rw [UInt32.toNat_add]
+        have : ('a'.val - 'A'.val).toNat = 32 := by decide
+        rw [this]
+        have : ('Z'.val).toNat = 90 := by decide
+        omega
+      have : ('A'.val).toNat = 65 := by decide
+      have : ('Z'.val).toNat = 90 := by decide
+      omega
+    · rfl
+  · simp
+
+theorem lower_idem (s : Str) : lower (lower s) = lower s := by
+  unfold lower
+  simp [List.map_map, Function.comp_def, toLower_idem]
+
 end SdnsVerif.Lemmas.Bailiwick
